@@ -552,6 +552,15 @@ pub fn build_project(raw: &Raw) -> Project {
                             list.push(written(e));
                         }
                     }
+                    // a show list naming members of one kind only (only variables / only callables):
+                    // the other kinds must then be hidden completely
+                    if show && d.chance(35) {
+                        let kinds: Vec<Kind> = [Kind::Var, Kind::Fn, Kind::Mixin].into_iter().filter(|k| tview.iter().any(|e| e.kind == *k)).collect();
+                        if kinds.len() >= 2 {
+                            let keep = kinds[d.pick(kinds.len())];
+                            list = tview.iter().filter(|e| e.kind == keep).map(|e| written(e)).collect();
+                        }
+                    }
                     if list.is_empty() {
                         list.push(written(&tview[d.pick(tview.len())]));
                     }
